@@ -146,8 +146,52 @@ pub proof fn lemma_reach_exact(a: A, v: usize, f: Set<usize>, n: int)
 }
 //#end
 
-/// what inspect(v) returns: a header with the id, then one line per edge of every vertex reachable from v
+/// a text wrapped by format! calls with one argument each (the re-indentation of the lines of a nested call), innermost first
+pub open spec fn wrapped(ws: Seq<Seq<char>>, x: Seq<char>) -> Seq<char>
+    decreases ws.len(),
+{
+    if ws.len() == 0 { x } else { fmt_text(ws.last(), seq![wrapped(ws.drop_last(), x)]) }
+}
+/// format!(literal, label, target, marker)
+pub open spec fn edge_text(lit: Seq<char>, l: Label, t: usize, m: Seq<char>) -> Seq<char> {
+    fmt_text(lit, seq![label_text(l), dec_text(t), m])
+}
+/// the line names an edge of the graph: format!(some literal, label, target, some marker), re-indented any number of times
+#[verifier::opaque]
+pub open spec fn is_edge_line(a: A, line: Seq<char>) -> bool {
+    exists|u: int, j: int, lit: Seq<char>, m: Seq<char>, ws: Seq<Seq<char>>| #![trigger wrapped(ws, edge_text(lit, a.edges[u][j].0, a.edges[u][j].1, m))]
+        0 <= u < a.edges.len() && 0 <= j < a.edges[u].len()
+        && line == wrapped(ws, edge_text(lit, a.edges[u][j].0, a.edges[u][j].1, m))
+}
+pub open spec fn all_edge_lines(a: A, lines: Seq<Seq<char>>) -> bool {
+    forall|i: int| 0 <= i < lines.len() ==> is_edge_line(a, #[trigger] lines[i])
+}
+pub proof fn lemma_own_line(a: A, u: int, j: int, lit: Seq<char>, m: Seq<char>)
+    requires 0 <= u < a.edges.len(), 0 <= j < a.edges[u].len(),
+    ensures is_edge_line(a, edge_text(lit, a.edges[u][j].0, a.edges[u][j].1, m)),
+{
+    reveal(is_edge_line);
+    let x = edge_text(lit, a.edges[u][j].0, a.edges[u][j].1, m);
+    assert(wrapped(Seq::<Seq<char>>::empty(), x) == x);
+}
+pub proof fn lemma_wrap_line(a: A, line: Seq<char>, w: Seq<char>)
+    requires is_edge_line(a, line),
+    ensures is_edge_line(a, fmt_text(w, seq![line])),
+{
+    reveal(is_edge_line);
+    let (u, j, lit, m, ws) = choose|u: int, j: int, lit: Seq<char>, m: Seq<char>, ws: Seq<Seq<char>>| #![trigger wrapped(ws, edge_text(lit, a.edges[u][j].0, a.edges[u][j].1, m))]
+        0 <= u < a.edges.len() && 0 <= j < a.edges[u].len()
+        && line == wrapped(ws, edge_text(lit, a.edges[u][j].0, a.edges[u][j].1, m));
+    let x = edge_text(lit, a.edges[u][j].0, a.edges[u][j].1, m);
+    let ws2 = ws.push(w);
+    assert(ws2.drop_last() =~= ws);
+    assert(wrapped(ws2, x) == fmt_text(w, seq![wrapped(ws, x)]));
+}
+
+/// what inspect(v) returns: a header with the id, then one line per edge of every vertex reachable from v, each of them the
+/// line of an edge of the graph
 pub closed spec fn inspect_post(a: A, v: usize, text: Seq<char>, lit: Seq<char>, nl: Seq<char>) -> bool {
     exists|lines: Seq<Seq<char>>| text == fmt_text(lit, seq![dec_text(v), #[trigger] joined(lines, nl)])
         && lines.len() == esum_reach(a, v, a.edges.len() as int)
+        && all_edge_lines(a, lines)
 }
